@@ -19,7 +19,7 @@ IdxWidth(n) == IF n <= 1 THEN 1 ELSE WidthOf(n - 1)
 \* content: [defs, reps, vals]; cuts: increasing sequence of row positions (in level entries) ending at Len(defs)
 \* opt: [style, idxStyle, useDict, dictOffsetField, dictEnc, dataEnc, crc, codec, stats]
 MkChunk(leaf, content, cuts, opt) ==
-    LET dict == IF opt.useDict THEN Dedup(content.vals) ELSE <<>>
+    LET dict == IF opt.useDict /\ content.vals # <<>> THEN Dedup(content.vals) ELSE <<>>     \* no empty dictionaries
         bw == IdxWidth(Len(dict)) + opt.extraWidth
         page(k) ==
             LET a == IF k = 1 THEN 1 ELSE cuts[k - 1] + 1
@@ -29,16 +29,18 @@ MkChunk(leaf, content, cuts, opt) ==
                 v0 == NonNull(content.defs, 1, a - 1, leaf.maxDef)
                 nn == NonNull(content.defs, a, b, leaf.maxDef)
                 vals == SubSeq(content.vals, v0 + 1, v0 + nn)
-                idx == IF opt.useDict THEN [i \in 1..nn |-> IndexIn(dict, vals[i])] ELSE <<>>
+                idx == IF dict # <<>> THEN [i \in 1..nn |-> IndexIn(dict, vals[i])] ELSE <<>>
             IN [n |-> b - a + 1, nn |-> nn,
                 defRuns |-> RunStyle(defs, opt.style, leaf.maxDef), repRuns |-> RunStyle(reps, opt.style, leaf.maxRep),
-                enc |-> IF opt.useDict THEN opt.dataEnc ELSE 0, vals |-> vals,
+                enc |-> IF dict # <<>> THEN opt.dataEnc ELSE 0, vals |-> vals,
+                encTag |-> IF opt.encTag # 255 THEN opt.encTag ELSE IF dict # <<>> THEN opt.dataEnc ELSE 0,
+                v2 |-> opt.v2, nrows |-> Len(SelectSeq(reps, LAMBDA r : r = 0)),
                 bw |-> bw, idxRuns |-> RunStyle(idx, opt.idxStyle, 0),
                 crc |-> opt.crc, stats |-> NoStatsW]
     IN [type |-> leaf.type, tlen |-> leaf.tlen, maxDef |-> leaf.maxDef, maxRep |-> leaf.maxRep, path |-> leaf.path,
-        codec |-> opt.codec, dict |-> dict, dictOffsetField |-> opt.dictOffsetField, dictEnc |-> opt.dictEnc,
+        codec |-> opt.codec, codecTag |-> IF opt.codecTag # 255 THEN opt.codecTag ELSE opt.codec, dict |-> dict, dictOffsetField |-> opt.dictOffsetField, dictEnc |-> opt.dictEnc,
         pages |-> [k \in 1..Len(cuts) |-> page(k)], stats |-> opt.stats]
 
 DefaultOpt == [style |-> "rle", idxStyle |-> "rle", useDict |-> FALSE, dictOffsetField |-> TRUE, dictEnc |-> 0, dataEnc |-> 8,
-               crc |-> "none", codec |-> 0, stats |-> NoStatsW, extraWidth |-> 0]
+               crc |-> "none", codec |-> 0, stats |-> NoStatsW, extraWidth |-> 0, v2 |-> FALSE, encTag |-> 255, codecTag |-> 255]
 =============================================================================
